@@ -3,13 +3,37 @@ from .. import core
 from . import structural, tracesleg
 
 
+def suite_traces(chk):
+    """Executions of the repository's own test-suite (hooks on), validated against TraceEmit."""
+    from .. import suitetraces, traces, gx
+    events, tail = suitetraces.collect(gx.REPO)
+    tr = suitetraces.to_traces(events)
+    if not tr:
+        raise core.MachineryFailure("the test-suite left no Emit event: " + tail)
+    res, verdicts = traces.validate_emit_traces(tr, chk.nproc)
+    chk.add_tlc(res)
+    rules = tracesleg.RULES_OF["C04"]
+    acc = 0
+    for t, v in zip(tr, verdicts):
+        rel = [f for f in (v or []) if f["rule"] in rules]
+        acc += not rel
+        for f in rel:
+            chk.violation(f"C04:suite-trace:{f['rule']}:{t['backend']}:{t['fn']}", {"trace": t["id"], "line": f["line"],
+                          "statement": t["stmts"][f["line"] - 1], "state_index": t["state_index"]},
+                          f"code generated inside the repository's test-suite ({t['backend']} {t['fn']}): rule {f['rule']} violated")
+    chk.traces += len(tr)
+    chk.extra["test_suite_traces"] = {"emit_events": len([e for e in events if e['ev'] == 'Emit']), "traces": len(tr), "accepted": acc}
+
+
 def main(chk: core.Check, replay):
     if replay:
         return core.replay_generic(chk, replay)
     structural.run(chk, "C04", layout=True)
     structural.run(chk, "C04", backend="jax", quick_models=60, thorough_models=600, layout=True)
     structural.run(chk, "C04", backend="c", quick_models=60, thorough_models=600, layout=True)
-    tracesleg.run(chk, 'C04')
+    extra = [(f"gen{i}", t) for i, t in enumerate(getattr(chk, "last_structural_texts", [])[:24])]
+    tracesleg.run(chk, 'C04', extra_models=extra)
+    suite_traces(chk)
 
 
 if __name__ == "__main__":
